@@ -1327,13 +1327,13 @@ fn run_stacked_principal(case: &super::c16::SgCase, ctx: &mut Ctx) -> R {
 pub fn property() -> Property {
     Property {
         id: "C06",
-        rule: "case = (target in {harness Acl, example nft-access-control, example ownable}, start ledger, initial role-admin wiring and memberships applied through the \
+        rule: Box::leak(format!("{} {}", "case = (target in {harness Acl, example nft-access-control, example ownable}, start ledger, initial role-admin wiring and memberships applied through the \
                public entry points, history of <=40 (thorough 80) ops grant/revoke/renounce_role/set_role_admin/transfer_admin/accept/renounce_admin/guarded probe/advance over 4 roles and \
                5+1 accounts, caller by model-relative selector, auth mode Exact/Drop/Swap/Tamper/Surplus; harness Acl only, ~10% of the history items: the admin-guarded clean-up entry points \
                remove_role_admin / remove_role_count (wiring remove_role_admin_no_auth / remove_role_accounts_count_no_auth) on state-relative roles (with/without admin role, emptied, populated, \
                without counter), follow-up grant/revoke by a holder of the removed admin role / the admin, re-grant after counter removal, singly or as short scripts; \
                lowlevel_nontrivial = >=1 successful and >=1 refused clean-up call and >=1 later grant/revoke attempt on a cleaned role); non-trivial = >=1 successful revoke/renounce of a non-last index, >=1 successful \
-               grant by a role-admin holder who is not the admin and >=1 rejected privileged call (ownable: >=1 passed and >=1 rejected owner-guarded call; stacked-guards: only_owner / only_admin / only_role stacked with when_not_paused / when_paused in both orders on a harness contract, >=2 calls refused for a wrong or unauthorized principal while the pause gate was open and >=1 passed); distinct = distinct serialised case",
+               grant by a role-admin holder who is not the admin and >=1 rejected privileged call (ownable: >=1 passed and >=1 rejected owner-guarded call; stacked-guards: only_owner / only_admin / only_role stacked with when_not_paused / when_paused in both orders on a harness contract, >=2 calls refused for a wrong or unauthorized principal while the pause gate was open and >=1 passed); distinct = distinct serialised case", super::c06b::RULE).into_boxed_str()),
         subs: vec![
             target_sub!("acl", Target::Acl, 1200, 20000),
             target_sub!("nft-access-control", Target::Nft, 900, 14000),
